@@ -206,6 +206,8 @@ class BigMapType(MapType, prim='big_map', args_len=2):
 
     def get(self, key: MichelsonType, dup=True) -> Optional[MichelsonType]:
         self.args[0].assert_type_equal(type(key))
+        if dup:
+            assert self.args[1].is_duplicable(), f'use GET_AND_UPDATE instead'
         val = next((v for k, v in self if k == key), Undefined)  # search in diff
         if val is Undefined:
             assert self.context, f'context is not attached'
